@@ -38,6 +38,12 @@ CHECKS = {
  "C08": (MC, "TLA+ Dispatch model (lazy per-type cache slots, memoised class pointers, lookups split into read/scan/write steps, two threads interleaved) checked exhaustively by TLC against Lookup = first declared entry of that class name; full type x class x member matrix, run-time types and concurrent first lookups on the real library in fresh processes; every answer validated by TLC (DispatchTrace) against an independent by-name scan of the raw type record",
          "TLC checks for all lookup orders from two threads at sub-step granularity, on types with duplicated, missing and no classes, that every answer and every cached or memoised value equals the declaration (a seeded wrong memo write is refuted); on the real library all 27 x 30 x members combinations go through all eight lookup entry points cold and warm in random orders, run-time types with 0..256 instances in arbitrary order (duplicates, empty members, 257th refused), casts, and 2-16 threads doing first lookups against cold caches, and TLC checks each answer, ClassError for missing classes and empty members, and ValueError for foreign casts.",
          "the oracle reads the public struct Type layout from Cello.h; real schedules are sampled (the model's interleavings are exhaustive)", "5/C08"),
+ "C16": (MC, "TLA+ CString operators and CStringModel (byte buffer with terminator, String_Rem's memmove arithmetic transcribed) checked exhaustively by TLC; every model transition and random histories over the full byte range run on real heap Strings; every call validated by TLC (CStringTrace)",
+         "TLC checks for all histories over a two-letter alphabet (operands empty, equal, prefix, middle, suffix, overlapping, absent) that the buffer's visible bytes are the abstract string and the terminator stays inside the allocation, and refutes the as-found String_Rem; all transitions plus random histories with strings to 1000 bytes over bytes 1..255 run on real Strings, and TLC checks bytes, len, strcmp sign, eq, substring test, first-occurrence removal, formatted writes at positions, capacity >= len+1 and that equal strings hash equally after every call.",
+         "operands are objects distinct from the target; formatted writes at positions inside the string", "5/C16"),
+ "C20": (MC, "TLA+ FileStream/FileModel (handles over a small disk) checked exhaustively by TLC (Balanced, ClosedRefuses, ReadsDisk); every model transition and random histories run on real Files with fopen/fclose interposed; every call validated by TLC (FileTrace) including the C library's own ftell/feof",
+         "TLC enumerates all orders of open (four modes, reopen without close), write, read, seek, tell, eof, flush and close (also twice, also after close) over two paths and checks that streams opened and closed balance, that a closed File refuses everything with IOError changing nothing, and that reads return what the disk holds; all transitions plus random histories (patterns with NULs, chunks from 0 to 3*BUFSIZ, seeks from every origin, with-blocks around explicit closes, del, printed integers scanned back) run on real Files, and TLC checks every return value, the bytes read, stell/seof against ftell/feof of every open stream after every call, and the fopen/fclose balance.",
+         "seek targets within the file; ISO C repositioning rule between reads and writes obeyed by the generators; one handle per path", "5/C20"),
 }
 
 NOT_YET = {
